@@ -558,6 +558,7 @@ class _Exporter:
             node_name = "  # " + node.name
         else:
             node_name = ""
+        break_last = False
         if use_iter_var and not use_loop_cond:
             rows.append(f"{sindent}for {iter_var} in range({n_iter}):{node_name}")
             # The following is a hacky way to suppress the generation of
@@ -567,10 +568,15 @@ class _Exporter:
         elif not use_iter_var and use_loop_cond:
             rows.append(f"{sindent}while {py_cond}:{node_name}")
         elif use_iter_var and use_loop_cond:
-            # TODO: This needs fixing
             rows.append(f"{sindent}for {iter_var} in range({n_iter}):{node_name}")
-            rows.append(f"{sindent}{_SINGLE_INDENT}if not {py_cond}:")
-            rows.append(f"{sindent}{_SINGLE_INDENT * 2}break")
+            # Without an initial condition the first iteration always runs and the body only
+            # runs while the condition holds: if the body does not read cond_in, the loop is
+            # "for ...: <body>; if <not cond_out>: break", the form the converter accepts.
+            break_last = not has_input(node, 1) and not _is_used_in_graph_body(cond_in, body)
+            if not break_last:
+                # TODO: This needs fixing
+                rows.append(f"{sindent}{_SINGLE_INDENT}if not {py_cond}:")
+                rows.append(f"{sindent}{_SINGLE_INDENT * 2}break")
         else:
             raise RuntimeError(
                 f"Unable to export loop type {node.op_type!r} into python because "
@@ -584,9 +590,18 @@ class _Exporter:
                 indent=indent + 1,
             )
         )
-        if use_loop_cond:
+        if break_last:
+            # The (otherwise unused) name of cond_in holds the break condition.
+            not_node = onnx.helper.make_node(  # noqa: TID251
+                "Not", [cond_out], [cond_in], domain=node.domain
+            )
+            rows.append(self._translate_node(not_node, opsets, indent=indent + 1))
+        elif use_loop_cond:
             rows.extend(self._emit_assign(cond_in, cond_out, indent + 1))
         rows.extend(self._emit_assign(formal_ins, formal_outs, indent + 1))
+        if break_last:
+            rows.append(f"{sindent}{_SINGLE_INDENT}if {py_cond}:")
+            rows.append(f"{sindent}{_SINGLE_INDENT * 2}break")
         rows.extend(self._emit_assign(actual_outs, formal_ins, indent))
 
         # TODO: This doesn't handle scan-outputs yet.
